@@ -13,6 +13,9 @@ decisions as in `sim/runtime.rs`, production = "release everything that arrived"
   one slice are cut at the same point (snapshot of `count` = number of elements in the batches so far).
 * `state_carries_to_next_slice` : the state a slice sees is what the previous slice assigned
   (the first slice sees the initial value), with closed forms for the two corpus bodies.
+* `optional_state_next_is_stored_initial_only_first` : an `Optional` state with a non-null initial
+  value shows the initial value to the first slice only; a stored null is seen as null
+  (corpus `state_opt_keep`, `optKeep_closed_form`).
 Partial: the macro expansion itself is modelled by hand (its text is pinned by checks/C31.py).
 -/
 import HvHydro2.Model.Sliced
@@ -290,6 +293,57 @@ theorem prevLast_closed_form (c : Option Int) (bs : List (List Int)) :
   | nil => rfl
   | cons b bs ih => simp only [runSliced, prevLastBody, List.length_cons, List.map_cons,
       List.take_succ_cons, ih]
+
+/-! ### `Optional` state with an initial value (`use::state(|l| Optional::from(..))`) -/
+
+theorem aux_statesSeenInit_later {σ β ω : Type} (body : Option σ → β → Option σ × ω)
+    (initial p : Option σ) (xs : List β) :
+    statesSeenInit body initial false p xs = statesSeen body p xs := by
+  induction xs generalizing p with
+  | nil => rfl
+  | cons x xs ih => cases p <;> simp [statesSeenInit, statesSeen, optStateSource, ih]
+
+theorem aux_runSlicedInit_later {σ β ω : Type} (body : Option σ → β → Option σ × ω)
+    (initial p : Option σ) (xs : List β) :
+    runSlicedInit body initial false p xs = runSliced body p xs := by
+  induction xs generalizing p with
+  | nil => rfl
+  | cons x xs ih => cases p <;> simp [runSlicedInit, runSliced, optStateSource, ih]
+
+/-- an `Optional` state created with an initial value (`from_previous_tick.or(initial` only in the
+first tick`)`): slice 0 sees the initial value, slice `t+1` sees exactly what slice `t` stored —
+a stored NULL is seen as null, the initial value never comes back -/
+theorem optional_state_next_is_stored_initial_only_first {σ β ω : Type}
+    (body : Option σ → β → Option σ × ω) (initial : Option σ) (xs : List β) :
+    statesSeenInit body initial true none xs = (initial :: statesWritten body initial xs).take xs.length := by
+  cases xs with
+  | nil => rfl
+  | cons x xs =>
+    simp only [statesSeenInit, optStateSource, if_true, aux_statesSeenInit_later,
+      state_carries_to_next_slice, statesWritten, List.length_cons, List.take_succ_cons]
+
+/-- so the whole run is the plain carried-state run started from the initial value -/
+theorem optional_state_run_eq {σ β ω : Type}
+    (body : Option σ → β → Option σ × ω) (initial : Option σ) (xs : List β) :
+    runSlicedInit body initial true none xs = runSliced body initial xs := by
+  cases xs with
+  | nil => rfl
+  | cons x xs => simp only [runSlicedInit, runSliced, optStateSource, if_true, aux_runSlicedInit_later]
+
+/-- corpus `state_opt_keep`: slice 0 sees 100, slice `t+1` sees the sum of batch `t` when it is
+positive and null otherwise -/
+theorem optKeep_closed_form (bs : List (List Int)) :
+    runSlicedInit optKeepBody optKeepInit true none bs =
+      (optKeepInit :: bs.map (fun b => if 0 < sumB b then some (sumB b) else none)).take bs.length := by
+  rw [optional_state_run_eq]
+  generalize optKeepInit = c
+  induction bs generalizing c with
+  | nil => rfl
+  | cons b bs ih => simp only [runSliced, optKeepBody, List.length_cons, List.map_cons,
+      List.take_succ_cons, ih]
+
+example : runSlicedInit optKeepBody optKeepInit true none [[0], [7], [-1, 1], [], [2, 3]]
+    = [some 100, none, some 7, none, none] := by decide
 
 /-! ### judging simulator executions (harness `hv_hydro2_sim`, driver ops `sb ss sc sp s2`) -/
 
